@@ -258,7 +258,8 @@ class C03(Property):
 
     def targeted_case(self, rng: random.Random) -> Dict[str, Any]:
         """structured scenarios around the mechanisms of the property, with random sizes"""
-        kind = rng.choice(["ancillary-only", "multi-cutoff-origin", "chain-through-origin", "superior-cover", "extender-walk"])
+        kind = rng.choice(["ancillary-only", "multi-cutoff-origin", "chain-through-origin", "superior-cover",
+                           "superior-cover-origin", "extender-walk"])
         c = rng.choice([3, 5, 20, 1000])
         gl = rng.choice([1, 2, c // 2 + 1])
         nb = rng.choice([0, 1, c, 3 * c])
@@ -341,6 +342,52 @@ class C03(Property):
             circ = rng.random() < 0.3
             rules = [{"name": "sup", "cutoff": c, "nbhd": nb, "cond": A("s"), "sup": [], "ext": None},
                      {"name": "inf", "cutoff": c, "nbhd": rng.choice([nb, 0]), "cond": A("i"), "sup": ["sup"], "ext": None}]
+            if rng.random() < 0.3:
+                rules.reverse()
+        elif kind == "superior-cover-origin":
+            # a superior chain that crosses the origin of a ring (genes chained over it and / or an origin-spanning
+            # gene) and an inferior chain inside it: before the origin, after it, or over it as well; or merely
+            # overlapping / next to it
+            c = max(c, 3)
+            length = rng.choice([20 * c, 9 * c + 1, 40 * c]) + 6 * gl
+            before = [length - (i + 1) * (gl + rng.choice([0, 1, c - 1])) - rng.choice([0, 1, c // 2]) for i in range(rng.choice([1, 2]))]
+            after = [rng.choice([0, 1, c // 2]) + i * (gl + rng.choice([0, 1, c - 1])) for i in range(rng.choice([1, 2]))]
+            sup_genes = [gene(max(lo, length // 2 + 1), "s", rng.choice([1, -1])) for lo in before] + \
+                        [gene(lo, "s", rng.choice([1, -1])) for lo in after]
+            span = None
+            if rng.random() < 0.4:
+                up, down = rng.choice([1, 2, gl]), rng.choice([1, 2, gl])
+                span = {"loc": origin_gene(rng, length, up, down, rng.choice([1, -1])), "hits": [["s", 0]], "hasres": True}
+                sup_genes = [g for g in sup_genes if down <= g["loc"]["parts"][0][0] and g["loc"]["parts"][0][1] <= length - up]
+                sup_genes.append(span)
+            mode = rng.choice(["inside-after", "inside-before", "inside-both", "all", "overlap", "apart", "own-gene-inside"])
+            genes = list(sup_genes)
+            simple_sup = [g for g in sup_genes if not g["loc"]["c"]]
+            lo_side = [g for g in simple_sup if g["loc"]["parts"][0][0] < length // 2]
+            hi_side = [g for g in simple_sup if g["loc"]["parts"][0][0] >= length // 2]
+            if mode == "inside-after" and lo_side:
+                rng.choice(lo_side)["hits"].append(["i", 0])
+            elif mode == "inside-before" and hi_side:
+                rng.choice(hi_side)["hits"].append(["i", 0])
+            elif mode == "inside-both" and lo_side and hi_side:
+                lo_side[0]["hits"].append(["i", 0])
+                hi_side[0]["hits"].append(["i", 0])
+            elif mode == "all":
+                for g in sup_genes:
+                    g["hits"].append(["i", 0])
+            elif mode == "overlap" and lo_side:
+                lo_side[-1]["hits"].append(["i", 0])
+                genes.append(gene(max(g["loc"]["parts"][0][1] for g in lo_side) + rng.choice([0, 1, c - 1]), "i"))
+            elif mode == "own-gene-inside" and len(lo_side) >= 2:
+                a, b = lo_side[0]["loc"]["parts"][0], lo_side[-1]["loc"]["parts"][0]
+                if a[1] + 1 < b[0]:
+                    genes.append(gene(a[1], "i", 1, ln=max(1, min(gl, b[0] - a[1] - 1))))
+            else:
+                genes.append(gene(length // 2 - 3 * c, "i"))
+            circ = True
+            cs = rng.choice([c, 2 * c])
+            rules = [{"name": "sup", "cutoff": cs, "nbhd": nb, "cond": A("s"), "sup": [], "ext": None},
+                     {"name": "inf", "cutoff": rng.choice([c, cs]), "nbhd": rng.choice([nb, 0]), "cond": A("i"), "sup": ["sup"], "ext": None}]
             if rng.random() < 0.3:
                 rules.reverse()
         else:
@@ -547,20 +594,6 @@ class C03(Property):
             known = spec["model_known"]
         if not spec_ok:
             detail = f"spec: {spec['why']}; implementation {obs['clusters']}" + ("; " + detail if detail else "")
-        # output-level reading of "dropped when the cluster of one of its SUPERIORS covers its core genes":
-        # on a linear record no reported protocluster may have its core inside the (final, extended) core of a
-        # reported protocluster of one of the superiors its rule object lists (the harness builds DetectionRule
-        # objects directly, so the list is used as given)
-        if spec_ok and wf and not case["circ"]:
-            sups: Dict[str, set] = {r["name"]: set(r["sup"]) for r in case["rules"]}
-            def inside(inner: Dict[str, Any], outer: Dict[str, Any]) -> bool:
-                return all(any(o[0] <= i[0] and i[1] <= o[1] for o in outer["parts"]) for i in inner["parts"])
-            for low in obs["clusters"]:
-                for high in obs["clusters"]:
-                    if high["rule"] in sups.get(low["rule"], ()) and inside(low["core"], high["core"]):
-                        spec_ok = False
-                        detail = (f"spec: protocluster of {low['rule']} with core {low['core']} is reported although the core "
-                                  f"{high['core']} of its superior {high['rule']} covers it; " + detail)
         n = len(obs["clusters"])
         tags.append(f"clusters{min(n, 5)}")
         tags.append(f"maxchain{min(spec['maxgroup'], 4)}")
